@@ -296,7 +296,7 @@ def unit_cases(ctx):
 
 def run_units(ctx, lmodel):
     cases = unit_cases(ctx)
-    reps = 3 if ctx.tier == 'quick' else 12
+    reps = 3 if ctx.tier == 'quick' else 6
     wires, meta = [], []
     for label, thunk, cmd, body, payload, canon in cases:
         for rep in range(reps):
@@ -351,7 +351,7 @@ def run_headers(ctx, lmodel):
     names = list(HEADER_NAMES)
     rng = ctx.rng
     alpha = ['lorem', 'LOREM', 'ru', 'sp', 'latin', 'r', 'x', '1', '2', '0', '-', '-', '7', '٣', ' ', '\n', 'Z', 'ſ']
-    for _ in range(300 if ctx.tier == 'quick' else 5000):
+    for _ in range(300 if ctx.tier == 'quick' else 2500):
         names.append('lorem' * (rng.random() < 0.9) + ''.join(rng.choice(alpha) for _ in range(rng.randrange(0, 6))))
     wires, meta = [], []
     for nm in names:
@@ -435,7 +435,7 @@ def pipeline_cases(ctx):
             cases.append((t % hs, copy.deepcopy(cfg), {'tag': 'template'}))
     # random
     import abbr_gen  # noqa
-    for _ in range(400 if quick else 6000):
+    for _ in range(400 if quick else 2500):
         t = rng.choice(TEMPLATES)
         if rng.random() < 0.3:
             t = rng.choice(['ul>', 'p+', '(', 'div*2>', 'a>b>', '']) + t
